@@ -73,7 +73,7 @@ impl Variant {
         let heavy = r.chance(1, 2);
         for ca in v.clone_arg.iter_mut() {
             for c in ca.iter_mut() {
-                *c = if r.chance(if heavy { 3 } else { 1 }, 6) { 1 + r.below(3) as u8 } else { 0 };
+                *c = if r.chance(if heavy { 3 } else { 1 }, 6) { 1 + r.below(4) as u8 } else { 0 };
             }
         }
         for (i, d) in v.drop_after_last_use.iter_mut().enumerate() {
@@ -167,6 +167,14 @@ pub fn run_variant(p: &Program, v: &Variant, seed: Option<(&[usize], &[f64])>, u
                                 2 => {
                                     let c1 = orig.clone();
                                     Some(c1.clone())
+                                }
+                                4 => {
+                                    // `clone_from` into a handle that already is a view of the same buffer under other
+                                    // dimensions (a reshaped view re-pointed at its base)
+                                    let n = orig.values().len();
+                                    let mut c = orig.reshape(vec![1, n]);
+                                    c.clone_from(orig);
+                                    Some(c)
                                 }
                                 _ => {
                                     // `Clone::clone_from` into an existing handle of some other array (what
